@@ -127,4 +127,24 @@ PROPS = {
     },
 }
 
+PROPS['C12'] = {
+    'modules': ['contracts.fs_format', 'contracts.tmpstore'],
+    'lemmas': ['contracts.tmpstore:lemma_roundtrip'],
+    'level': 'proof',
+    'bounded': [
+        {'func': 'ZODB.Connection:Connection<savepoint-programs>',
+         'bound': '6 fixed + 150 (thorough: 2000) random programs of <=14 steps (modify, add, savepoint, rollback '
+                  'to any live savepoint, commit, abort) checked against a model after every step; conflict during '
+                  'the commit of savepoint data with and without savepoint'},
+    ],
+    'text': 'The savepoint store is proved at byte level: TmpStore.store writes exactly the entry image and '
+            'indexes it, load returns exactly the stored (data, serial) for every indexed oid under TMPINV and '
+            'delegates otherwise, reset cuts the file at the savepoint position and installs index and creating '
+            'maps EQUAL TO AND NOT ALIASED WITH the savepoint\'s (ownership of the immutable state tuple); lemma: '
+            'load after store is the identity. Connection-level rollback/commit of savepoints: bounded programs.',
+    'note': 'Connection._rollback_savepoint/_commit_savepoint/_abort_savepoint and blob files inside savepoints are '
+            'covered by the bounded program harness only (labelled), not proved.',
+    'design_ref': 'DESIGN.md section 5 C12',
+}
+
 NOT_YET = {}
